@@ -62,13 +62,43 @@ class RunMonitor:
 
     @staticmethod
     def _find_driver_codes():
+        """Driver frames = every function or method defined in pdb2pqr/main.py (the module
+        that sequences the pipeline), found by walking the module -- not a list of names,
+        so splitting or renaming the driver functions, or moving them into a class, keeps
+        the stage boundaries discoverable.  A stage is any repository function called
+        directly from a driver frame."""
         codes = set()
         try:
+            import inspect
+
             from pdb2pqr import main as main_mod
-            for name in ("main_driver", "non_trivial"):
+
+            fname = getattr(main_mod, "__file__", None)
+
+            def add(obj, depth=0):
+                fn = getattr(obj, "__func__", obj)
+                code = getattr(fn, "__code__", None)
+                if code is not None and code.co_filename == fname:
+                    codes.add(code)
+
+            for obj in vars(main_mod).values():
+                if inspect.isfunction(obj):
+                    add(obj)
+                elif inspect.isclass(obj) and getattr(obj, "__module__", None) == main_mod.__name__:
+                    for member in vars(obj).values():
+                        if isinstance(member, (staticmethod, classmethod)):
+                            add(member.__func__)
+                        elif inspect.isfunction(member):
+                            add(member)
+                        elif isinstance(member, property):
+                            for acc in (member.fget, member.fset):
+                                if acc is not None:
+                                    add(acc)
+            # the argument-parser builder and the CLI shell are not pipeline sequencing
+            for name in ("build_main_parser", "main", "run_pdb2pqr", "dx_to_cube"):
                 fn = getattr(main_mod, name, None)
                 if fn is not None and hasattr(fn, "__code__"):
-                    codes.add(fn.__code__)
+                    codes.discard(fn.__code__)
         except Exception:  # noqa: BLE001 - no driver frames known: stage faults never fire
             pass
         return codes
@@ -210,7 +240,7 @@ class RunMonitor:
         if self.driver_codes:
             fr = sys._getframe(1)
             back = fr.f_back
-            if back is not None and back.f_code in self.driver_codes and code not in self.driver_codes:
+            if back is not None and back.f_code in self.driver_codes:
                 name = fn[len(self.pkg):] + ":" + code.co_qualname
                 c = self.stage_counts.get(name, 0) + 1
                 self.stage_counts[name] = c
@@ -230,7 +260,7 @@ class RunMonitor:
         if self.driver_codes:
             fr = sys._getframe(1)
             back = fr.f_back
-            if back is not None and back.f_code in self.driver_codes and code not in self.driver_codes:
+            if back is not None and back.f_code in self.driver_codes:
                 name = fn[len(self.pkg):] + ":" + code.co_qualname
                 st = self._stage_open.pop(name, None)
                 if st is not None:
